@@ -100,7 +100,9 @@ def matlab_case(idx, payload):
     rng = random.Random(seed * 1000003 + idx + 500000)
     n = rng.randint(2, 3)
     texts = []
-    endings = ["", "\n", " ", "\n\n", " /* end */", " // end of file\n", "\t", " // no newline at the end of the file", " x_"]
+    endings = ["", "\n", " ", "\n\n", " /* end */", " // end of file\n", "\t", " // no newline at the end of the file", " x_",
+               # a line comment followed by blanks / tabs / other white space that is not a line feed, and no newline
+               " // end of part ", " // }\t", " // namespace x \t ", " //", " // \x0c", " // note\r", " /* open", " // a \\"]
     if rng.random() < 0.5:
         # ONE coherent module (typedefs refer to templates declared anywhere in it) cut into files at random
         # top-level split points: typedefs and their templates end up in different files
